@@ -245,6 +245,8 @@ pub fn run_c05(rep: &mut Report) {
         }
     }
 
+    clean_run_then_fault(rep, "C05", frame_expect);
+
     // ---- Keyboard::add_word = frame rule ∘ scancode decoder, in every scancode prefix state
     // Keyboard::add_word feeds the scancode stage with every byte in every prefix state: run it in a child process, so
     // that a tree whose scancode decoder aborts on garbage does not take this (frame-rule) check down with it
@@ -548,7 +550,7 @@ fn feed_and_check(d: &mut Ps2Decoder, w: u16, prev: &str, prev_ops: &dyn Fn() ->
 /// More than 2^32 bits through one decoder, every 11th-bit result verified (a free-running 32-bit counter wraps here).
 /// Inherently sequential (~8 s), so it runs on its own thread beside the rest of the C06 monitor.
 fn run_2_32_bits() -> (u64, Option<(String, String)>) {
-    let total_frames: u64 = (1u64 << 32) / 11 + 200_000;
+    let total_frames: u64 = if light() { 2_000_000 } else { (1u64 << 32) / 11 + 200_000 };
     let r = guarded(|| {
         let mut d = crate::scan::fresh_ps2();
         let f = [encode_frame(0x1C), encode_frame(0xF0), 0x7FFu16, encode_frame(0x5A)];
@@ -578,6 +580,67 @@ fn run_2_32_bits() -> (u64, Option<(String, String)>) {
         Err(p) => Some((format!("C06|panic|2^32-run|{}", panic_sig(&p)), format!("the 2^32-bit run panicked: {}", p))),
     };
     (total_frames * 11, v)
+}
+
+/// A line that has been clean for a long time, then one bad frame, then every class of frame (C05: judged by the frame
+/// rule; C06: by the crate's own whole-word decoding of the same 11 bits).
+fn clean_run_then_fault(rep: &mut Report, prop: &str, oracle: fn(u16) -> Result<u8, Error>) {
+    // ---- a line that has been clean for a long time, then one bad frame, then every class of frame: each aligned group
+    //      of 11 bits must still be judged by the rule (a decoder that "re-aligns" after trouble on a proven-good line)
+    {
+        let follow: [u16; 12] = [0x7FF, 0x001, 0x401, encode_frame(0x5A) | 1, encode_frame(0x1C), encode_frame(0xF0), encode_frame(0x00), encode_frame(0xFF), encode_frame(0x77) ^ 0x200, 0x000, 0x3FF, 0x400];
+        let faults: [(&str, u16); 3] = [("bad-start", encode_frame(0x2B) | 1), ("bad-stop", encode_frame(0x2B) & !0x400), ("bad-parity", encode_frame(0x2B) ^ 0x200)];
+        let mut groups = 0u64;
+        for clean in [64u32, 1000, 4200, 70_000] {
+            for (fname, fault) in faults.iter() {
+                for fw in follow.iter() {
+                    let r = guarded(|| {
+                        let mut d = crate::scan::fresh_ps2();
+                        let mut seq: Vec<u16> = Vec::new();
+                        let mut n = 0u64;
+                        let mut bad = None;
+                        let feed = |d: &mut Ps2Decoder, w: u16, idx: u64, bad: &mut Option<(u64, u16, usize, String, String)>| {
+                            for i in 0..11 {
+                                let got = d.add_bit((w >> i) & 1 == 1);
+                                let want: BitRes = if i < 10 { Ok(None) } else { oracle(w).map(Some) };
+                                if got != want && bad.is_none() {
+                                    *bad = Some((idx, w, i, bitres_str(&want), bitres_str(&got)));
+                                }
+                            }
+                        };
+                        for k in 0..clean {
+                            feed(&mut d, encode_frame((k % 251) as u8), n, &mut bad);
+                            n += 1;
+                        }
+                        seq.push(*fault);
+                        seq.push(*fw);
+                        seq.extend([encode_frame(0x1C), encode_frame(0xF0), encode_frame(0x1C)]);
+                        for w in seq {
+                            feed(&mut d, w, n, &mut bad);
+                            n += 1;
+                        }
+                        (n, bad)
+                    });
+                    match r {
+                        Ok((n, bad)) => {
+                            groups += n;
+                            if let Some((idx, w, i, want, got)) = bad {
+                                let pos = if idx < clean as u64 { "in the clean run".to_string() } else { format!("#{} after the clean run", idx - clean as u64 + 1) };
+                                rep.violate(
+                                    format!("{}|add_bit|prev=after-{}-good-frames-and-a-{}-frame|class={}|bit#{}|want={}|got={}", prop, clean, fname, frame_class(w), i + 1, want, got),
+                                    format!("after {} accepted frames, one {} frame and then frame {}: frame {} ({}, {}), bit {} returned {}; expected {}", clean, fname, word_bits(*fw), word_bits(w), frame_class(w), pos, i + 1, got, want),
+                                    J::obj().with("kind", J::s("clean-run-then-fault")).with("clean_frames", J::u(clean as u64)).with("fault", J::s(*fname)).with("follow_up", J::u(*fw as u64)),
+                                );
+                            }
+                        }
+                        Err(p) => rep.violate(format!("{}|add_bit|prev=after-{}-good-frames|panic|{}", prop, clean, panic_sig(&p)), format!("panicked after {} accepted frames and a {} frame: {}", clean, fname, p), J::Null),
+                    }
+                }
+            }
+        }
+        rep.evaluations += groups;
+        rep.count("frames_judged_in_clean_run_then_fault_histories", groups);
+    }
 }
 
 /// Counters in static memory behind the frame decoder (hidden.rs), driven across their wrap-arounds while frames go in
@@ -640,6 +703,7 @@ fn frame_static_counter_wraps(rep: &mut Report, prop: &str, serial: bool) {
 
 pub fn run_c06(rep: &mut Report) {
     frame_static_counter_wraps(rep, "C06", true);
+    clean_run_then_fault(rep, "C06", whole_word);
     let long_run = std::thread::spawn(run_2_32_bits);
     let fresh_dbg = format!("{:?}", crate::scan::fresh_ps2());
     let mut out = Out::default();
